@@ -33,7 +33,7 @@ Definition hc_generic_mid (c : hcctx) (start : Z) (src : mem) (srcSize cap : Z) 
   else
     let vrd := fun p => get src (p - start) in
     let endIdx := start + srcSize in
-    match mid_compress vrd lim start start start srcSize cap (hc_h4 c) (hc_h8 c) with
+    match mid_compress vrd lim start start start srcSize cap (fun _ => None) (hc_h4 c) (hc_h8 c) with
     | MFail h4 h8 hw => mkHR 0 srcSize [] hw (mkHC h4 h8 endIdx true)
     | MUndef => mkHR (-1) srcSize [] 0 (mkHC (hc_h4 c) (hc_h8 c) start true)   (* model artefact: excluded by the theorems *)
     | MOk ret consumed out h4 h8 hw =>
